@@ -6,6 +6,8 @@ package main
 
 import (
 	"bytes"
+	"database/sql"
+	"database/sql/driver"
 	"encoding/json"
 	"errors"
 	"fmt"
@@ -136,10 +138,36 @@ func (v *cxRecv) class(err error) string {
 	return uuErrClass(err)
 }
 
-// cxNonTime returns the i-th value of a rotation of values that are not a time.Time.
-func cxNonTime(i int) any {
+type (
+	cxMyTime   time.Time
+	cxTimeBox  struct{ time.Time }
+	cxValuer   struct{ t time.Time }
+	cxStringer struct{}
+)
+
+func (v cxValuer) Value() (driver.Value, error) { return v.t, nil }
+func (cxStringer) String() string               { return "2024-02-29" }
+
+// cxNonTimeVals: values that are not a time.Time - everything database/sql may hand to a Scanner (nil, int64, float64,
+// bool, []byte, string), the wrappers people pass by mistake (sql.Null*, valid and not; pointers, nil and not; named
+// and embedding types of time.Time; driver.Valuer; fmt.Stringer) and unrelated kinds. Date.Scan must refuse every one
+// of them with an error and leave the receiver alone. (The first eleven are the original rotation, in their old places.)
+func cxNonTimeVals() []any {
 	t := time.Date(2024, 2, 29, 12, 0, 0, 0, time.UTC)
-	vals := []any{nil, 20240229, "2024-02-29", []byte("2024-02-29"), &t, int64(1709164800), 1.5, true, date.New(2024, 2, 29), struct{}{}, []any{t}}
+	d := date.New(2024, 2, 29)
+	var nilT *time.Time
+	var nilD *date.Date
+	var nilNT *sql.NullTime
+	return []any{nil, 20240229, "2024-02-29", []byte("2024-02-29"), &t, int64(1709164800), 1.5, true, date.New(2024, 2, 29), struct{}{}, []any{t},
+		sql.NullTime{}, sql.NullTime{Time: t, Valid: true}, &sql.NullTime{Time: t, Valid: true}, &sql.NullTime{}, nilNT, nilT, nilD, &d,
+		cxMyTime(t), cxTimeBox{t}, &cxTimeBox{t}, cxValuer{t}, cxStringer{}, sql.NullString{String: "2024-02-29", Valid: true}, sql.NullString{}, sql.NullInt64{Int64: 1709164800, Valid: true},
+		sql.RawBytes("2024-02-29"), json.Number("20240229"), time.Duration(1709164800), uint64(20240229), int32(20240229), uint8(29), float32(1.5), "", []byte(nil), []byte{}, "0001-01-01",
+		[]time.Time{t}, [1]time.Time{t}, map[string]time.Time{"t": t}, &[]byte{'x'}, func() time.Time { return t }, make(chan time.Time), complex(1, 2), errors.New("2024-02-29"), any(&nilT)}
+}
+
+// cxNonTime returns the i-th value of the rotation.
+func cxNonTime(i int) any {
+	vals := cxNonTimeVals()
 	return vals[i%len(vals)]
 }
 
@@ -974,6 +1002,37 @@ func propC17(c *Ctx) {
 	} {
 		cxHistOp(c, l)
 	}
+	// every Scan operand of cxNonTimeVals on a receiver that holds an earlier decoded value (the operand is chosen by the
+	// position of the S:x call in the history), interleaved with successful scans, unmarshals and other failures
+	nOper := len(cxNonTimeVals())
+	for _, lead := range [][]string{{"T:323032342d30322d3239"}, {"S:t:951868800:0:3600", "B:01000007e8021d"}, {"B:0100001ec90901", "T:78", "S:t:-62135596800:0:-3600"}, {}} {
+		ops := append([]string{}, lead...)
+		for len(ops) < nOper+len(lead)+3 {
+			ops = append(ops, "S:x")
+			switch len(ops) % 7 {
+			case 3:
+				ops = append(ops, "S:t:1709164800:999999999:-43200")
+			case 5:
+				ops = append(ops, "T:313939392d31322d3331", "B:02000007e80101")
+			}
+		}
+		cxHistOp(c, "hist date "+strings.Join(ops, " "))
+		// direct: the same operands through Scan on a fresh holder of a known date
+		for i, v := range cxNonTimeVals() {
+			d := date.New(1999+len(lead), 12, 31)
+			before := d
+			var err error
+			panicked := func() (p bool) {
+				defer func() { p = recover() != nil }()
+				err = d.Scan(v)
+				return
+			}()
+			c.Check("")
+			if panicked || err == nil || !d.Equal(before) || dateYMD(d) != dateYMD(before) {
+				c.Fail("C17.date.recv", "", "Scan(%T) (operand %d): panic=%v err=%v, receiver %v -> %v", v, i, panicked, err, before, d)
+			}
+		}
+	}
 	c.Note("histories: %d with %d calls; distinct text inputs per type: date %d roman %d sem %d size %d uu %d", nh, totalOps,
 		len(pools["date"].list), len(pools["roman"].list), len(pools["sem"].list), len(pools["size"].list), len(pools["uu"].list))
 	// 2. the same inputs through every parser entry point (string, []byte, named types inside the ops)
@@ -1358,6 +1417,60 @@ func propC16(c *Ctx) {
 		}
 	}
 	c.NT(int64(nprefix))
+	// 3b. the way an append-style API is really called: a long-lived scratch buffer with hundreds or thousands of spare
+	// bytes, and prefixes of hundreds of bytes (every formatter, boundary values, every line flag for the small flag sets)
+	bigSpares := []int{65, 100, 127, 128, 129, 200, 255, 256, 257, 511, 512, 1000, 1024, 2048, 4096, 5000}
+	longPrefixes := [][]byte{}
+	for _, n := range []int{40, 63, 64, 65, 127, 128, 129, 255, 256, 257, 300} {
+		pre := make([]byte, n)
+		for i := range pre {
+			if n%2 == 0 {
+				pre[i] = cxEmitAlpha[c.R.Intn(len(cxEmitAlpha))]
+			} else {
+				pre[i] = byte(c.R.Next())
+			}
+		}
+		longPrefixes = append(longPrefixes, pre)
+	}
+	nbig := 0
+	for _, t := range types {
+		for vi := range bnd[t] {
+			if vi%3 != 0 && vi != len(bnd[t])-1 {
+				continue
+			}
+			fv := &bnd[t][vi]
+			flags := []int{0, 1, fv.lineFlags - 1, fv.lineFlags / 2}
+			for fi, flag := range flags {
+				if t == "sem" {
+					flag &= 1
+				}
+				// short prefixes with a roomy buffer
+				for _, ps := range []string{"", "ab:", cxNamedPrefixes[(vi+fi)%len(cxNamedPrefixes)]} {
+					cxAppendCheck(c, fv, flag, []byte(ps), bigSpares)
+					nbig++
+				}
+				// long prefixes with little, some and much room
+				for pi, pre := range longPrefixes {
+					cxAppendCheck(c, fv, flag, pre, []int{0, 1, 64, bigSpares[(pi+fi+vi)%len(bigSpares)], 4096})
+					nbig++
+					if (pi+fi+vi)%4 == 0 {
+						c.Op(fv.line(flag, pre))
+					}
+				}
+			}
+		}
+		for i := 0; i < 40; i++ {
+			fv := cxFmtRandom(c.R, t)
+			flag := c.R.Intn(fv.lineFlags)
+			if t == "sem" {
+				flag &= 1
+			}
+			cxAppendCheck(c, &fv, flag, longPrefixes[c.R.Intn(len(longPrefixes))], []int{0, bigSpares[c.R.Intn(len(bigSpares))], 4096})
+			cxAppendCheck(c, &fv, flag, cxRandPrefix(c.R), bigSpares)
+			nbig += 2
+		}
+	}
+	c.NT(int64(nbig))
 	// 4. URN = "urn:uuid:" ++ plain
 	nu := 2000
 	if c.Thorough {
@@ -1603,9 +1716,7 @@ func cxTotality(c *Ctx, g *cxG, in, in2 string, mode int, emit int) {
 		d.Scan(nil)
 		d.Scan(len(in))
 	})
-	if dr >= 0 {
-		lines = append(lines, dline)
-	}
+	lines = append(lines, dline) // negative rule values too: the driver reads rule fields as two's-complement bit patterns
 	lines = append(lines, "date.unbin "+h, "hist date T:"+h+" B:"+h2+" T:"+h2+" B:"+h)
 	// roman
 	rr := cxAnyRule(c.R, 2)
@@ -1621,9 +1732,7 @@ func cxTotality(c *Ctx, g *cxG, in, in2 string, mode int, emit int) {
 			cxLimCheck(c, "roman."+strconv.Itoa(i), func() string { return rline }, lr, len(in), e, roman.ErrInputTooLong)
 		}
 	})
-	if rr >= 0 {
-		lines = append(lines, rline, fmt.Sprintf("roman.valid %d %d %s", lr, rr, h))
-	}
+	lines = append(lines, rline, fmt.Sprintf("roman.valid %d %d %s", lr, rr, h))
 	lines = append(lines, "hist roman T:"+h+" T:"+h2)
 	// sem
 	sr := cxAnyRule(c.R, 2)
@@ -1712,9 +1821,7 @@ func cxTotality(c *Ctx, g *cxG, in, in2 string, mode int, emit int) {
 			cxLimCheck(c, "uu."+strconv.Itoa(i), func() string { return uline }, lu, len(in), e, uu.ErrInputTooLong)
 		}
 	})
-	if ur >= 0 {
-		lines = append(lines, uline)
-	}
+	lines = append(lines, uline)
 	lines = append(lines, "hist uu T:"+h+" T:"+h2)
 	g.run("encoding/json", func() string { return "json.Unmarshal " + h }, func() {
 		var hd cxHolder
@@ -1972,6 +2079,89 @@ func cxLimitContract(c *Ctx, g *cxG) {
 	}
 }
 
+// cxNearMissBases: one or two valid texts of every type (the bases of the near-miss stream of propC18).
+var cxNearMissBases = []string{"2024-02-29", "20240229", "MCMXCIV", "mmxxiv", "v1.2.3-rc.1+b.7", "1.0.0", "10 KiB", "1 000 kB", `{"value":1,"unit":"KiB"}`, `"12kB"`,
+	"ed7059f3-0000-4000-8000-000000000000", "URN:uuid:ED7059F3-0000-4000-8000-00000000ABCD"}
+
+// cxHugeInputs: with the limit at 0, and with a limit above the input, a text of 2 MiB + 1 is never refused as too long
+// (a hard cap hidden behind the configurable limit), a grammatical one is accepted, and the call stays quick and frugal.
+// Package regexp needs a quarter of a second per mebibyte on the roman and sem patterns, so those two packages run a
+// choice of entry points (string and []byte, one- and two-argument, UnmarshalText) instead of all of them.
+func cxHugeInputs(c *Ctx, g *cxG) {
+	const n = 2<<20 + 1
+	slowPick := map[string]bool{"DefaultParser[string] r0": true, "Valid[[]byte] r1": true, "Parse[string]": true, "Default[[]byte]": true, "Compare(ok, in)": true, "UnmarshalText": true}
+	for _, typ := range cxTypes {
+		entries, tooLong, set, _ := cxEntries(typ)
+		shaped := cxLongText(c.R, typ, n)
+		for ei := range entries {
+			e := &entries[ei]
+			slow := typ == "roman" || typ == "sem"
+			if slow && !slowPick[e.name] {
+				continue
+			}
+			for li, L := range []int{0, 2 * n} {
+				if slow && li != ei%2 && e.name != "UnmarshalText" || slow && e.name == "UnmarshalText" && li == 1 {
+					continue
+				}
+				var err error
+				restore := set(L)
+				a0 := cxTotalAlloc()
+				t0 := time.Now()
+				name := fmt.Sprintf("%s.%s", typ, e.name)
+				g.run(name, func() string { return fmt.Sprintf("%s: %d-byte input, limit %d", name, n, L) }, func() { err = e.call(shaped) })
+				dt, alloc := time.Since(t0), cxTotalAlloc()-a0
+				restore()
+				c.Evals++
+				repro := fmt.Sprintf("%s on a grammatical %d-byte text under MaxInputLength %d", name, n, L)
+				if errors.Is(err, tooLong) {
+					c.Fail("C18.limit."+typ+".huge", repro, "refused as too long although the limit is %d: %v", L, err)
+				} else if err != nil && (typ == "roman" || typ == "sem" && !strings.Contains(e.name, "Tag") || typ == "size" && (strings.HasSuffix(e.name, " r0") || e.name == "UnmarshalText")) {
+					c.Fail("C18.limit."+typ+".huge.reject", repro, "%v", err)
+				}
+				if alloc > 96*n {
+					c.Fail("C18.alloc."+typ+".huge", repro, "allocated %d bytes for %d input bytes", alloc, n)
+				}
+				if dt > 3*time.Second {
+					c.Fail("C18.slow."+typ+".huge", repro, "took %v", dt)
+				}
+			}
+		}
+		c.NT(1)
+	}
+}
+
+// cxNegativeLimits: a negative MaxInputLength is non-zero, and every non-empty input is longer than it: all five
+// packages refuse every non-empty input as too long then (the empty input is not used here: date, roman and sem look
+// at it before the limit, size and uu after — the property does not say which).
+func cxNegativeLimits(c *Ctx, g *cxG) {
+	for _, typ := range cxTypes {
+		entries, tooLong, set, _ := cxEntries(typ)
+		for _, L := range []int{-1, -5, math.MinInt64} {
+			inputs := []string{cxValidText(c.R, typ), cxSeedValid[typ], "x", cxDistinct(c.R, 5), "\xff"}
+			for _, in := range inputs {
+				if in == "" {
+					continue
+				}
+				for ei := range entries {
+					e := &entries[ei]
+					var err error
+					restore := set(L)
+					name := fmt.Sprintf("%s.%s", typ, e.name)
+					g.run(name, func() string { return fmt.Sprintf("%s(%q) under MaxInputLength %d", name, in, L) }, func() { err = e.call(in) })
+					restore()
+					c.Evals++
+					if !errors.Is(err, tooLong) {
+						c.Fail("C18.limit."+typ+".negative", fmt.Sprintf("%s(%q) under MaxInputLength %d", name, in, L), "a %d-byte input is longer than the non-zero limit %d, but: %v", len(in), L, err)
+					}
+				}
+			}
+		}
+		c.NT(3)
+	}
+}
+
+var cxSeedValid = map[string]string{"date": "2024-02-29", "roman": "MCMXCIV", "sem": "1.2.3", "size": "10 KiB", "uu": "ed7059f3-0000-4000-8000-000000000000"}
+
 var cxCmpStrings = []string{"", "ééé", "é", "éa", "aé", "a", "b", "1", "01", "001", "2", "10", "1a", "a1", "a01", "a.b", "a..b", ".", "..", "a.", ".a", "\xff", "\xff\xfe", "\x00", "-", "0", "00",
 	"日本", "é.é", "é.1", "1.é", "ééé.ééé", "alpha", "alpha.1", "alpha.beta", "beta.2", "beta.11", "rc-1", "rc.1", "a-b", "A", "Z", "z", "١", "a\x00b", "9999999999999999999999", "99999999999999999999999",
 	"18446744073709551615", "18446744073709551616", " ", "a b", "+", "a+b", "𝟙", "\xc3", "\xa9", "é\xc3", "0x1", "-1", "1-", "e", "ë", "é"}
@@ -2201,9 +2391,27 @@ func propC18(c *Ctx) {
 		cxTotality(c, g, in, in2, i%4, e)
 	}
 	c.NT(int64(iters))
+	// 1b. every hand-picked valid text with every near-miss affix (line terminator, CRLF, blank, NUL, BOM, doubled end byte …)
+	// and every single look-alike substitution, through every entry point: no panic, the limit judged on the byte length
+	nm := 0
+	for _, base := range cxNearMissBases {
+		for _, s := range affixTexts(base) {
+			for mode := 0; mode < 4; mode++ {
+				cxTotality(c, g, s, base, mode, 1)
+			}
+			nm++
+		}
+		for _, s := range lookalikeTexts(base) {
+			cxTotality(c, g, s, base, nm%4, 1)
+			nm++
+		}
+	}
+	c.NT(int64(nm))
 	t1 := time.Now()
 	// 2. the limit contract on every entry point
 	cxLimitContract(c, g)
+	cxHugeInputs(c, g)
+	cxNegativeLimits(c, g)
 	t2 := time.Now()
 	// 3. hand-picked cases
 	cxSpecific(c, g)
